@@ -413,7 +413,8 @@ def judge_run(case, res, name, cls, n_in, ref, bound):
         # order and uniqueness are judged for the records in front of the first faulted one: behind it
         # the mates of a pair may come from different input pairs (undetectable until the files end
         # when the ids differ in a final 1/2/3 only), and --revcomp may then swap them
-        cut = next((k for k, i in enumerate(idx) if bound is not None and bound != -1 and i >= bound), len(idx))
+        # (a record whose id is not one of ours any more - both mates renamed alike - is behind the fault)
+        cut = next((k for k, i in enumerate(idx) if bound is not None and bound != -1 and (i >= bound or i < 0)), len(idx))
         if bound != -1 and any(b <= a for a, b in zip(idx[:cut], idx[1:cut])):
             out.append(C.V("output-order", f"{name}: {d['paths'][0]}: records not in input order: {ids[:12]}"))
         for i in ids[:cut]:
@@ -431,7 +432,7 @@ def judge_run(case, res, name, cls, n_in, ref, bound):
                     continue
                 for k, rec in enumerate(mine):
                     i = idx[k]
-                    if bound is not None and i >= bound:
+                    if bound is not None and (i >= bound or i < 0):
                         break
                     if k >= len(theirs) or tuple(theirs[k]) != tuple(rec):
                         out.append(C.V("output-not-prefix", f"{name}: {d['paths'][min(side, len(d['paths'])-1)]} record {k} ({rec[0]!r}) is not the record the fault-free run writes there"))
